@@ -451,6 +451,14 @@ def excluded(sep, T):
     return sep == "dot" and T.startswith("/")
 
 
+def dot_canon_excluded(segs):
+    """The canonical dot-notation text of these segments begins with '/' (the first segment is a key whose text
+    starts with '/', which dot notation writes as it is): a dot-notation text whose first character is '/', the
+    class the property excludes by the notation's own definition -- whether such a text is given or is the
+    canonical text the implementation has to produce (str() under the dot separator, pop()'s rebuilt path)."""
+    return len(segs) > 0 and segs[0][0] == "KEY" and segs[0][1].startswith("/")
+
+
 def judge(case, obs):
     """The round-trip clauses, evaluated on the real YAMLPath objects' observations.  The domain is the
     grammar's well-formedness WITHOUT the guards that only exist because of the known findings."""
@@ -468,8 +476,10 @@ def judge(case, obs):
         for name, c, p, f in (("dot", cd, pd, fd), ("slash", cs, ps, fs)):
             if not c.startswith("(ok"):
                 return "canonical %s string of %r: %s" % (name, T, c)
-            if name == "dot" and c.startswith("(ok s2f"):
-                continue        # a dot-notation text starting with '/': excluded by the notation's own definition
+            if name == "dot" and c.startswith("(ok s2f") and (dot_canon_excluded(segs) or len(segs) == 0):
+                # a dot-notation text starting with '/': excluded by the notation's own definition (the root path
+                # "/" shown under the dot separator is written "/" as well)
+                continue
             if p != exp:
                 return "canonical %s string %s of %r re-parses to %s, expected %s" % (name, c, T, p, exp)
             if f != c:
@@ -494,7 +504,11 @@ def judge(case, obs):
                 return "segments of %r before append: %s" % (T, before)
             if not popped.startswith("(ok"):
                 return "pop() after append(%r) to %r: %s" % (body(SEPC[sep], tail), T, popped)
-            if after != exp:
+            if sep == "dot" and dot_canon_excluded(segs) and after_orig.startswith("(ok s2f"):
+                # pop() could not cut the segment from the text and rebuilt the path as its canonical dot-notation
+                # text, which begins with '/': excluded by the notation's own definition (same rule as above)
+                pass
+            elif after != exp:
                 return "append(%r) then pop() on %r leaves segments %s (text %s), expected %s" % (
                     body(SEPC[sep], tail), T, after, after_orig, exp)
     return None
@@ -767,4 +781,7 @@ def corpus_chunks():
         ("dot", (k, ("SEARCH", False, "CONTAINS", "a", "%", False, "sq", "/")), None, None),                    # fixed #24
         ("dot", (k,), None, ("KEY", "a b", "sq")),                                                              # fixed #25
         ("dot", (k,), None, ("ANCHOR", "q", True)),                                                             # fixed #25
+        ("dot", (("KEY", "/", "dq"),), None, ("KEY", "a.b", "sq")),     # pop() rebuilds "/" : excluded dot text
+        ("dot", (("KEY", "/", "dq"),), None, ("KEY", "a", None)),       # pop() cuts the text: "/" in quotes restored
+        ("slash", (), ("slash", ()), ("KEY", "a", None)),               # root shown under the dot separator is "/"
     ]]
